@@ -1,4 +1,5 @@
 import Litep2pVerif.Model.Conn.Loop
+import Litep2pVerif.Generated.Consts
 /-!
 # The `TcpConnection::start` loop together with its keep-alive permits (C07, C09)
 
@@ -10,7 +11,7 @@ connection's command channel, exactly as `src/transport/tcp/connection.rs` and
 * a protocol's `ConnectionHandle` while it is `Active` (`handles`), and the handle clone inside every
   `ConnectionEstablished` still in a protocol's channel;
 * the `Permit` inside every queued `ProtocolCommand::OpenSubstream` (`cmdQ`);
-* the `Permit` of every substream in `pending_substreams` (`Stage.negotiating`): for an OUTBOUND
+* the `Permit` of every substream in `pending_substreams` (`Stage.opening`, `Stage.negotiating`): for an OUTBOUND
   substream it came with the command, for an INBOUND one `handle_yamux_substream` takes it at ACCEPT
   time (`self.protocol_set.try_get_permit().ok_or(Error::ConnectionClosed)?`) — before multistream-select
   has said which protocol the substream is for — and `accept_substream` carries it in
@@ -32,6 +33,24 @@ is queued; `accept` without a strong sender is the no-permit exit. `tokio::selec
 branch, so the loop is a labelled transition system; the driver explores every enabled order (checker
 mode) and the theorems quantify over every label sequence.
 
+**Life cycle of an outbound open request** (C08). `ConnectionHandle::open_substream` puts
+`ProtocolCommand::OpenSubstream` into the command channel (capacity `Consts.PROTOCOL_COMMAND_CHANNEL_SIZE`; a full
+channel refuses the request: `ChannelClogged`) — *requested*. `handle_protocol_command` moves it into
+`pending_substreams` as `timeout(open_timeout, open_substream(..))` — *yamux open pending* (`Stage.opening`):
+`Control::open_stream()` has not returned yet; it does not return while `MAX_ACK_BACKLOG` outbound yamux streams are
+waiting for the remote's acknowledgement, and a remote may never acknowledge (`TLabel.yamuxOpened` is the
+environment's move). Then multistream-select runs under `negotiate_protocol`'s own timer — *negotiating*. The future
+ends with the negotiated substream (`negOk` for the main name, `negOkFb` for a fallback name), with a negotiation
+failure, or with EITHER timer firing — from either stage — and the loop reports `SubstreamOpened` resp.
+`SubstreamOpenFailure`, with the request's protocol and substream id, to the protocol that asked (`negFail` on an
+outbound entry: `NegRes.err (some i)`). An entry leaves the pending stages once and never comes back.
+
+**Names.** A protocol has a main name and fallback names; `ProtocolSet::new` builds the name → keep-alive map
+(`keepAlives` below) that `accept_substream` consults for the NEGOTIATED name, and `report_substream_open` maps a
+fallback name to its main protocol. Both are per protocol: a substream negotiated under any name of protocol `p`
+is reported to `p` and gets `p`'s lifetime permit (`nameKa_eq`), so `negOkFb k p f` acts on the state exactly like
+`negOk k p`.
+
 The reporting side (who is told what, suspended sends, `start()`'s error path) is `Loop.lean`'s
 `loopStep`/`step` unchanged: `TLoop.loop` is a `Loop` whose `pending` counter is recomputed from the
 substream table before every step.
@@ -40,6 +59,8 @@ namespace Litep2pVerif.Conn
 
 /-- Where a substream of the connection is. -/
 inductive Stage
+  /-- outbound, in `pending_substreams`: `Control::open_stream()` has not returned, the future owns the permit -/
+  | opening
   /-- in `pending_substreams`: multistream-select running, the future owns the permit -/
   | negotiating
   /-- `SubstreamOpened` sent (or being sent) to the protocol, not yet taken -/
@@ -51,6 +72,11 @@ inductive Stage
   /-- failed, dropped, or lost with the connection task / the protocol's receiver -/
   | gone
   deriving DecidableEq, Repr
+
+/-- In `pending_substreams`: the request (outbound) / the accepted stream (inbound) has not been answered yet. -/
+def Stage.pending : Stage → Bool
+  | .opening | .negotiating => true
+  | _ => false
 
 structure Sub where
   inbound : Bool
@@ -85,6 +111,7 @@ def kaOf (ka : List Bool) : Option Nat → Bool
 /-- Strong senders owned by one substream. -/
 def Sub.permits (ka : List Bool) (x : Sub) : Nat :=
   match x.stage with
+  | .opening => 1
   | .negotiating => 1
   | .queued => 1 + (if kaOf ka x.proto then 1 else 0)
   | .held => if kaOf ka x.proto then 1 else 0
@@ -113,14 +140,14 @@ def TLoop.strong (s : TLoop) : Nat :=
 /-- The loop is at its `select!` (not returned, not suspended inside a report call). -/
 def TLoop.running (s : TLoop) : Bool := s.loop.exited.isNone && s.loop.cont.isNone
 
-def negCount (subs : List Sub) : Nat := (subs.filter fun x => x.stage == .negotiating).length
+def negCount (subs : List Sub) : Nat := (subs.filter fun x => x.stage.pending).length
 
 /-- When `start()` has returned the `TcpConnection` is dropped: `pending_substreams` (with their
 permits) and the command receiver (with the queued commands) go away. -/
 def cleanup (s : TLoop) : TLoop :=
   if s.loop.exited.isSome then
     { s with cmdQ := [],
-             subs := s.subs.map fun x => if x.stage = .negotiating then { x with stage := .gone } else x }
+             subs := s.subs.map fun x => if x.stage.pending = true then { x with stage := .gone } else x }
   else s
 
 /-- One `select!` event of `Loop.lean`, with `pending_substreams.len()` taken from the table. -/
@@ -148,10 +175,14 @@ inductive TLabel
   | accept
   | yamuxEof
   | yamuxErr
-  /-- `pending_substreams` yields `Ok` for table entry `k`, negotiated protocol `p` -/
+  /-- `pending_substreams` yields `Ok` for table entry `k`, negotiated protocol `p` (under its main name) -/
   | negOk (k p : Nat)
-  /-- … yields `Err` (failure or timeout) -/
+  /-- … negotiated under the `f`-th fallback name of protocol `p` -/
+  | negOkFb (k p f : Nat)
+  /-- … yields `Err` (failure, or either of the two timers) -/
   | negFail (k : Nat)
+  /-- `Control::open_stream()` of outbound entry `k` returns the yamux stream: multistream-select starts -/
+  | yamuxOpened (k : Nat)
   /-- `protocol_set.next()` yields `Some(command)` -/
   | takeCmd
   /-- `protocol_set.next()` yields `None` -/
@@ -198,12 +229,22 @@ def tNegOk (s : TLoop) (k p : Nat) : TLoop :=
                      subs := s.subs.set k { x with proto := some p,
                                                    stage := if protoAlive s p then .queued else .gone } }
 
+/-- `Control::open_stream()` returned: the future goes on with multistream-select (same future, same permit). -/
+def tYamuxOpened (s : TLoop) (k : Nat) : TLoop :=
+  if s.running = false then s else
+  match s.subs[k]? with
+  | none => s
+  | some x => if x.stage = .opening then { s with subs := s.subs.set k { x with stage := .negotiating } } else s
+
+/-- The future of entry `k` ends with an error: negotiation failure, `open_stream` failure, or one of the two
+timers (`tokio::time::timeout(open_timeout, ..)` around the whole future, `negotiate_protocol`'s own) — from
+whichever stage it is in. An outbound request is answered with its protocol and id. -/
 def tNegFail (s : TLoop) (k : Nat) : TLoop :=
   if s.running = false then s else
   match s.subs[k]? with
   | none => s
   | some x =>
-    if x.stage ≠ .negotiating then s else
+    if x.stage.pending = false then s else
     cleanup { s with loop := lstep s (.negotiated (.err (if x.inbound then none else x.proto))),
                      subs := s.subs.set k { x with stage := .gone } }
 
@@ -212,7 +253,7 @@ def tTakeCmd (s : TLoop) : TLoop :=
   match s.cmdQ with
   | [] => s
   | .openSub i :: q =>
-    cleanup { s with loop := lstep s .cmdOpen, cmdQ := q, subs := s.subs ++ [⟨false, some i, .negotiating⟩] }
+    cleanup { s with loop := lstep s .cmdOpen, cmdQ := q, subs := s.subs ++ [⟨false, some i, .opening⟩] }
   | .forceClose :: q => cleanup { s with loop := lstep s .cmdForceClose, cmdQ := q }
 
 /-- `rx.recv()` yields `None` iff the queue is empty and no strong sender exists. -/
@@ -243,12 +284,18 @@ def canSend (s : TLoop) (i : Nat) : Bool :=
   | some .inactive => decide (0 < s.strong)
   | _ => false
 
+/-- The command channel (`channel(256)` in `ProtocolSet::new`) has room for another command. -/
+def TLoop.cmdRoom (s : TLoop) : Bool := decide (s.cmdQ.length < Consts.PROTOCOL_COMMAND_CHANNEL_SIZE)
+
 def tstep (s : TLoop) : TLabel → TLoop
   | .accept => tAccept s
   | .yamuxEof => if s.running then cleanup { s with loop := lstep s .yamuxEof } else s
   | .yamuxErr => if s.running then cleanup { s with loop := lstep s .yamuxErr } else s
   | .negOk k p => tNegOk s k p
+  -- whichever of the protocol's names was negotiated: reported to `p`, `p`'s lifetime permit
+  | .negOkFb k p _ => tNegOk s k p
   | .negFail k => tNegFail s k
+  | .yamuxOpened k => tYamuxOpened s k
   | .takeCmd => tTakeCmd s
   | .idleExit => tIdleExit s
   | .recv i => tRecv s i
@@ -259,10 +306,10 @@ def tstep (s : TLoop) : TLabel → TLoop
     if s.handles[i]? = some .inactive ∧ 0 < s.strong then { s with handles := s.handles.set i .active } else s
   | .dropHandle i => if i < s.handles.length then { s with handles := s.handles.set i .dropped } else s
   | .localOpen i =>
-    -- `try_send` fails once the receiver is gone
-    if canSend s i && s.loop.exited.isNone then { s with cmdQ := s.cmdQ ++ [.openSub i] } else s
+    -- `try_send` fails once the receiver is gone (`Closed`) and while the channel is full (`ChannelClogged`)
+    if canSend s i && s.loop.exited.isNone && s.cmdRoom then { s with cmdQ := s.cmdQ ++ [.openSub i] } else s
   | .forceClose i =>
-    if canSend s i && s.loop.exited.isNone then { s with cmdQ := s.cmdQ ++ [.forceClose] } else s
+    if canSend s i && s.loop.exited.isNone && s.cmdRoom then { s with cmdQ := s.cmdQ ++ [.forceClose] } else s
   | .dropSub i =>
     -- the oldest substream held: `halfClose` acts on the oldest one too, so a half-closed one comes first
     match firstAt s.subs i .heldHalf with
@@ -287,6 +334,19 @@ def tstep (s : TLoop) : TLabel → TLoop
 
 def trun (s : TLoop) (ls : List TLabel) : TLoop := ls.foldl tstep s
 
+/-- The labels that act on the pending entry `k`: the end of its future (`negOk`, `negOkFb`, `negFail`). -/
+def TLabel.endsNeg (k : Nat) : TLabel → Bool
+  | .negOk k' _ => k' == k
+  | .negOkFb k' _ _ => k' == k
+  | .negFail k' => k' == k
+  | _ => false
+
+/-- … or its yamux stream having been opened. -/
+def TLabel.touches (k : Nat) : TLabel → Bool
+  | .yamuxOpened k' => k' == k
+  | l => l.endsNeg k
+
+
 /-- A connection right after `report_connection_established`: every protocol has the `established`
 event (with a strong handle clone) in its channel, the `ProtocolSet`'s own handle is downgraded. -/
 def tinit (ka : List Bool) (cap : Nat) : TLoop :=
@@ -294,13 +354,40 @@ def tinit (ka : List Bool) (cap : Nat) : TLoop :=
                       order := List.range ka.length, mgr := { cap := cap }, active := false } },
     ka := ka, handles := List.replicate ka.length .dropped }
 
-/-- A substream that keeps the connection busy: an inbound or outbound substream being negotiated
-(whatever protocol it will turn out to be for), or a delivered substream of a keep-alive protocol — in the
+/-- A substream that keeps the connection busy: an outbound substream whose yamux stream is being opened, an inbound
+or outbound substream being negotiated (whatever protocol it will turn out to be for), or a delivered substream of a keep-alive protocol — in the
 protocol's channel, held, or held with its write half shut down. -/
 def Busy (ka : List Bool) (x : Sub) : Prop :=
-  x.stage = .negotiating ∨
+  x.stage = .opening ∨ x.stage = .negotiating ∨
     (kaOf ka x.proto = true ∧ (x.stage = .queued ∨ x.stage = .held ∨ x.stage = .heldHalf))
 
 instance (ka : List Bool) (x : Sub) : Decidable (Busy ka x) := by unfold Busy; infer_instance
+
+/-! ### names: `ProtocolSet::new` -/
+
+/-- A protocol name: `(p, 0)` is the main name of protocol `p`, `(p, f + 1)` its `f`-th fallback name. -/
+abbrev Name := Nat × Nat
+
+/-- `fallback_names`: `protocols.iter().flat_map(|(protocol, context)| context.fallback_names.iter().map(|fallback|
+(fallback.clone(), protocol.clone())))` — fallback name ↦ main protocol. `fbs[p]` = number of fallback names of `p`. -/
+def fallbackNames (fbs : List Nat) : List (Name × Nat) :=
+  (List.range fbs.length).flatMap fun p => (List.range (fbs.getD p 0)).map fun f => ((p, f + 1), p)
+
+/-- `keep_alives`: `main_keep_alives` (every main name with its context's setting) chained with
+`fallback_keep_alives` (every fallback name with the setting of the context of ITS MAIN protocol:
+`protocols.get(main).expect(..).keep_alive`). `none` for a missing context is the `expect`. -/
+def keepAlives (ka : List Bool) (fbs : List Nat) : List (Name × Option Bool) :=
+  ((List.range ka.length).map fun p => ((p, 0), ka[p]?)) ++
+  (fallbackNames fbs).map fun (fallback, main) => (fallback, ka[main]?)
+
+/-- `protocols.get(&protocol)` in `accept_substream`: the keep-alive setting of the negotiated name. -/
+def nameKa (ka : List Bool) (fbs : List Nat) (n : Name) : Option (Option Bool) := (keepAlives ka fbs).lookup n
+
+/-- `report_substream_open`: `match self.fallback_names.get(&protocol) { Some(main) => (main, Some(protocol)),
+None => (protocol, None) }` — the protocol the substream is reported to, and the `fallback` field of the event. -/
+def reportTo (fbs : List Nat) (n : Name) : Nat × Option Name :=
+  match (fallbackNames fbs).lookup n with
+  | some main => (main, some n)
+  | none => (n.1, none)
 
 end Litep2pVerif.Conn
